@@ -55,3 +55,28 @@ Theorem C06_locking_handover : forall s,
   l_unlockq s' = l_unlockq s /\ l_val s' = l_val s.
 Proof. exact dequeue_txs_spec. Qed.
 Print Assumptions C06_locking_handover.
+
+(* ---- exactly-once, in order, over whole histories (bridge module) ---- *)
+From Goat Require Import Proofs.BridgeHandover.
+(* the hand-over step removes from the front of the three queues exactly what it delivers *)
+Theorem C06_dequeue_delivers_prefix s s' txs : dequeue_btc s = Ok (s', txs) ->
+  b_qdep s = del_dep txs ++ b_qdep s' /\ b_qpaid s = del_paid txs ++ b_qpaid s' /\ b_qrej s = del_rej txs ++ b_qrej s'.
+Proof. exact (dequeue_delivers_prefix s s' txs). Qed.
+Print Assumptions C06_dequeue_delivers_prefix.
+
+(* every other operation only appends to them and delivers nothing *)
+Theorem C06_other_operations_only_append (H : bytes -> bytes) (chain : bytes) s o : o <> BDequeue ->
+  appends s (fst (bk_step H chain s o)) /\ snd (snd (bk_step H chain s o)) = [].
+Proof. exact (step_appends H chain s o). Qed.
+Print Assumptions C06_other_operations_only_append.
+
+(* hence, for EVERY history: what has been delivered so far followed by what is still queued is what was queued
+   initially followed by what the operations appended, in that order - nothing dropped, duplicated, invented or
+   reordered, in each of the three queues *)
+Theorem C06_handover_conservation (H : bytes -> bytes) (chain : bytes) ops s :
+  let '(s', txs) := collect H chain s ops in
+  (exists a, del_dep txs ++ b_qdep s' = b_qdep s ++ a) /\
+  (exists a, del_paid txs ++ b_qpaid s' = b_qpaid s ++ a) /\
+  (exists a, del_rej txs ++ b_qrej s' = b_qrej s ++ a).
+Proof. exact (handover_conservation H chain ops s). Qed.
+Print Assumptions C06_handover_conservation.
